@@ -132,6 +132,21 @@ pub fn ids_with_text(dom: &ODom) -> Vec<IdInfo> {
     out
 }
 
+pub fn cell_has_text(dom: &ODom, c: odom::Id) -> bool {
+    let mut st = vec![c];
+    while let Some(y) = st.pop() {
+        if let Kind::Text(t) = dom.kind(y) {
+            if t.chars().any(odom::is_visible_char) {
+                return true;
+            }
+        }
+        for &k in dom.children(y) {
+            st.push(k);
+        }
+    }
+    false
+}
+
 /// Is `id` a table / row group / row whose first cell has no visible text?
 fn table_part_with_empty_first_cell(dom: &ODom, id: odom::Id) -> bool {
     let name = dom.html_name(id).unwrap_or("");
@@ -195,6 +210,63 @@ pub fn check_markers(
         let got = chars_before.get(&info.name).cloned().unwrap_or_default();
         // several elements may share an id value only in mutated documents; ids are unique here
         if got.is_empty() {
+            // Is the element itself not rendered because of the known text-loss
+            // defect (spanning cell over columns without text of their own)?
+            // Then there is nothing to attach a marker to; C03/C06 report that.
+            let mut chain = vec![info.node];
+            chain.extend(dom.ancestors(info.node));
+            // for a row / table: look at its cells
+            let mut cells: Vec<odom::Id> = chain
+                .iter()
+                .cloned()
+                .filter(|x| matches!(dom.html_name(*x), Some("td") | Some("th")))
+                .collect();
+            if cells.is_empty() {
+                let mut st = vec![info.node];
+                while let Some(x) = st.pop() {
+                    if matches!(dom.html_name(x), Some("td") | Some("th")) {
+                        cells.push(x);
+                        continue;
+                    }
+                    for &c in dom.children(x) {
+                        st.push(c);
+                    }
+                }
+            }
+            let span = |c: odom::Id| dom.attr(c, "colspan").and_then(|v| v.trim().parse::<usize>().ok()).unwrap_or(1);
+            if !cells.is_empty()
+                && cells
+                    .iter()
+                    .filter(|c| crate::mon::c14::cell_has_text(dom, **c))
+                    .all(|c| span(*c) >= 2 && super::c03::spanned_columns_have_no_own_text(dom, *c))
+            {
+                out.inc("element_not_rendered(see C03 known finding)");
+                continue;
+            }
+            // In documents with side-by-side tables: is any of the element's text
+            // in the output at all?  If its text was not rendered (C03's subject)
+            // or is too short to tell, there is nothing to judge here.
+            if !sequential {
+                let mut toks: Vec<String> = Vec::new();
+                let mut st = vec![info.node];
+                while let Some(x) = st.pop() {
+                    if let Kind::Text(t) = dom.kind(x) {
+                        for w in t.split(|c: char| !in_t(c)) {
+                            if w.chars().count() >= 4 {
+                                toks.push(w.chars().take(4).collect());
+                            }
+                        }
+                    }
+                    for &c in dom.children(x) {
+                        st.push(c);
+                    }
+                }
+                let text: String = lines.iter().map(line_text).collect::<Vec<_>>().join("\n");
+                if toks.is_empty() || !toks.iter().any(|t| text.contains(t.as_str())) {
+                    out.inc("element_text_not_found_in_table_output");
+                    continue;
+                }
+            }
             let class = if table_part_with_empty_first_cell(dom, info.node) {
                 "table-part-with-empty-first-cell".to_string()
             } else {
